@@ -94,28 +94,30 @@ Qed.
 Definition toread (s : core) : Z := if efd_raw s =? 0 then 1024 else 8.
 
 (* the internal raw event has nothing to read *)
-Definition KickDry (s : core) : Prop := forall kx n, k_read (kern s) (rw_rfd s KICK_RAW) (toread s) <> (kx, inl n).
+Definition KickDry (s : core) : Prop :=
+  rw_reg s KICK_RAW = true -> forall kx n, k_read (kern s) (rw_rfd s KICK_RAW) (toread s) <> (kx, inl n).
 
 Definition Dry (s : core) (j : Z) : Prop := snd (k_read (kern s) (rw_rfd s j) (toread s)) = inr EAGAIN.
 
 Lemma KickDry_QF : forall s s', QF s s' -> KickDry s -> KickDry s'.
-Proof. intros s s' F K kx n. unfold toread. rewrite (qf_kern _ _ F), (qf_rf _ _ F), (qf_er _ _ F). apply K. Qed.
+Proof. intros s s' F K R kx n. unfold toread. rewrite (qf_kern _ _ F), (qf_rf _ _ F), (qf_er _ _ F). apply K. rewrite <- (qf_rw _ _ F). exact R. Qed.
 
-Lemma raw_got_event_q2 : forall s j s', KickDry s -> raw_got_event sc s j = R s' -> Q s' -> Dry s j /\ QFH s s'.
+Lemma raw_got_event_q2 : forall s j s', KickDry s -> rw_reg s j = true -> raw_got_event sc s j = R s' -> Q s' -> Dry s j /\ QFH s s'.
 Proof.
-  intros s j s' KD E H. destruct (raw_got_event_q s j s' E H) as [RQ F]. unfold RawQuiet, Dry, toread in *.
+  intros s j s' KD RJ E H. destruct (raw_got_event_q s j s' E H) as [RQ F]. unfold RawQuiet, Dry, toread in *.
   destruct (k_read (kern s) (rw_rfd s j) (if efd_raw s =? 0 then 1024 else 8)) as [k1 [n|e]] eqn:RD; cbn [fst snd] in *.
-  - exfalso. destruct RQ as (_ & EJ & _). subst j. exact (KD k1 n RD).
+  - exfalso. destruct RQ as (_ & EJ & _). subst j. exact (KD RJ k1 n RD).
   - destruct e; try contradiction. split; [reflexivity|]. apply k_read_eagain in RD. subst k1.
     eapply QFH_trans; [|exact F]. split; [constructor; auto|split; reflexivity].
 Qed.
 
-Lemma call_fd_q : forall s k band h s', KickDry s -> call_fd sc s k band h = R s' -> Q s' ->
+Lemma call_fd_q : forall s k band h s', KickDry s -> (forall hid, h = Some hid -> 1000 <= hid -> rw_reg s (hid - 1000) = true) ->
+  call_fd sc s k band h = R s' -> Q s' ->
   QFH s s' /\ (forall hid, h = Some hid -> 1000 <= hid /\ Dry s (hid - 1000)).
 Proof.
-  intros s k band h s' KD E H. unfold call_fd in E. destruct h as [hid|]; [|inversion E; subst; split; [apply QFH_refl|discriminate]].
+  intros s k band h s' KD HR E H. unfold call_fd in E. destruct h as [hid|]; [|inversion E; subst; split; [apply QFH_refl|discriminate]].
   destruct (Z.leb_spec 1000 hid) as [L|L].
-  - destruct (raw_got_event_q2 _ _ _ KD E H) as [D F]. split; [exact F|]. intros h0 E0. inversion E0; subst. split; assumption.
+  - destruct (raw_got_event_q2 _ _ _ KD (HR hid eq_refl L) E H) as [D F]. split; [exact F|]. intros h0 E0. inversion E0; subst. split; assumption.
   - exfalso. apply (script_call_q s (TCallFd k band hid (cookie (getfd s k))) _ s' I E s' ch ch_nr' (TrExt_refl _ _) H).
 Qed.
 
@@ -133,14 +135,19 @@ Proof.
   split; [exact L|apply (Dry_QF s s' _ F D)].
 Qed.
 
-Lemma dispatch_active_q : forall fuel s s', KickDry s -> dispatch_active sc fuel s = R s' -> Q s' ->
+Definition RawH (s : core) : Prop :=
+  forall k, In k (active s) -> forall b hid, 0 <= b <= 2 -> hnd (fdt s k) b = Some hid -> 1000 <= hid -> rw_reg s (hid - 1000) = true.
+
+Lemma dispatch_active_q : forall fuel s s', KickDry s -> RawH s -> dispatch_active sc fuel s = R s' -> Q s' ->
   QF s s' /\ (forall k, In k (active s) -> NoFire s k).
 Proof.
-  induction fuel as [|f IH]; intros s s' KD E H; cbn [dispatch_active] in E; destruct (active s) as [|k rest] eqn:AC;
+  induction fuel as [|f IH]; intros s s' KD HR E H; cbn [dispatch_active] in E; destruct (active s) as [|k rest] eqn:AC;
     try (inversion E; subst; split; [apply QF_refl|intros k0 []]); try (unfold halt in E; discriminate E).
   cbv zeta in E. set (s1 := set_handled (set_active s rest) (Some k)) in *.
   assert (F01 : QF s s1) by (constructor; auto).
   pose proof (KickDry_QF s s1 F01 KD) as KD1.
+  assert (HRk : forall s0, QF s s0 -> forall b hid, 0 <= b <= 2 -> hnd (fdt s0 k) b = Some hid -> 1000 <= hid -> rw_reg s0 (hid - 1000) = true).
+  { intros s0 F0 b hid B HH L. rewrite (qf_rw _ _ F0). rewrite (qf_fdt _ _ F0) in HH. apply (HR k ltac:(rewrite AC; left; reflexivity) b hid B HH L). }
   destruct (if has (ready (getfd s1 k)) M_ERR then call_fd sc s1 k 2 (h_err (getfd s1 k)) else R s1) as [s2|s2] eqn:E1;
     cbn [bind] in E; [|discriminate E].
   destruct (match handled s2 with
@@ -162,24 +169,27 @@ Proof.
   (* the error band *)
   assert (A1 : QFH s1 s2 /\ (has (ready (fdt s1 k)) M_ERR = true -> forall hid, h_err (fdt s1 k) = Some hid -> 1000 <= hid /\ Dry s1 (hid - 1000))).
   { unfold getfd in E1. destruct (has (ready (fdt s1 k)) M_ERR); [|inversion E1; subst; split; [apply QFH_refl|discriminate]].
-    destruct (call_fd_q _ _ _ _ _ KD1 E1 Q2) as [F D]. split; [exact F|intros _; exact D]. }
+    destruct (call_fd_q _ _ _ _ _ KD1 (fun hid HH L => HRk s1 F01 2 hid ltac:(lia) HH L) E1 Q2) as [F D]. split; [exact F|intros _; exact D]. }
   destruct A1 as [(F12 & HD12 & AC12) D1]. pose proof (KickDry_QF s1 s2 F12 KD1) as KD2.
   assert (HD2 : handled s2 = Some k) by (rewrite HD12; reflexivity).
   rewrite HD2 in E2.
   assert (A2 : QFH s2 s3 /\ (has (ready (fdt s2 k)) M_IN = true -> forall hid, h_in (fdt s2 k) = Some hid -> 1000 <= hid /\ Dry s2 (hid - 1000))).
   { unfold getfd in E2. destruct (has (ready (fdt s2 k)) M_IN); [|inversion E2; subst; split; [apply QFH_refl|discriminate]].
-    destruct (call_fd_q _ _ _ _ _ KD2 E2 Q3) as [F D]. split; [exact F|intros _; exact D]. }
+    destruct (call_fd_q _ _ _ _ _ KD2 (fun hid HH L => HRk s2 (QF_trans _ _ _ F01 F12) 0 hid ltac:(lia) HH L) E2 Q3) as [F D]. split; [exact F|intros _; exact D]. }
   destruct A2 as [(F23 & HD23 & AC23) D2]. pose proof (KickDry_QF s2 s3 F23 KD2) as KD3.
   assert (HD3 : handled s3 = Some k) by (rewrite HD23; exact HD2).
   rewrite HD3 in E3.
   assert (A3 : QFH s3 s4 /\ (has (ready (fdt s3 k)) M_OUT = true -> forall hid, h_out (fdt s3 k) = Some hid -> 1000 <= hid /\ Dry s3 (hid - 1000))).
   { unfold getfd in E3. destruct (has (ready (fdt s3 k)) M_OUT); [|inversion E3; subst; split; [apply QFH_refl|discriminate]].
-    destruct (call_fd_q _ _ _ _ _ KD3 E3 Q4) as [F D]. split; [exact F|intros _; exact D]. }
+    destruct (call_fd_q _ _ _ _ _ KD3 (fun hid HH L => HRk s3 (QF_trans _ _ _ (QF_trans _ _ _ F01 F12) F23) 1 hid ltac:(lia) HH L) E3 Q4) as [F D]. split; [exact F|intros _; exact D]. }
   destruct A3 as [(F34 & HD34 & AC34) D3]. pose proof (KickDry_QF s3 s4 F34 KD3) as KD4.
-  destruct (IH s4 s' KD4 E H) as [F4 N4].
   assert (F04 : QF s s4) by (apply (QF_trans _ s1); [exact F01|]; apply (QF_trans _ s2); [exact F12|]; apply (QF_trans _ s3); assumption).
-  split; [apply (QF_trans _ s4); assumption|].
   assert (AC4 : active s4 = rest) by (rewrite AC34, AC23, AC12; reflexivity).
+  assert (HR4 : RawH s4).
+  { intros k0 IN b hid B HH L. rewrite (qf_rw _ _ F04). rewrite (qf_fdt _ _ F04) in HH. rewrite AC4 in IN.
+    apply (HR k0 ltac:(rewrite AC; right; exact IN) b hid B HH L). }
+  destruct (IH s4 s' KD4 HR4 E H) as [F4 N4].
+  split; [apply (QF_trans _ s4); assumption|].
   intros k0 [<-|IN].
   - intros b hid B R HH. assert (HB : b = 0 \/ b = 1 \/ b = 2) by lia.
     assert (F02 : QF s s2) by (apply (QF_trans _ s1); assumption).
